@@ -87,7 +87,9 @@ PREFIXES = [None, 'a', 'a.b']
 OPS = [('add', 'f1', None), ('add', 'f2', None), ('add', 'f1', 'x'), ('add', 'f2', 'x'), ('add', 'f1', 'f2'),
        ('add_methods', 'f1', None), ('add_method_obj', 'f2', 'y'), ('view', None), ('view', 'v'),
        # the decorator-factory spellings @registry.add(name=..) / @registry.view(prefix=..), and the base view on its own
-       ('add_deco', 'f2', 'x'), ('view_deco', 'v'), ('view_deco', None), ('viewbase', None), ('view2', None)]
+       ('add_deco', 'f2', 'x'), ('view_deco', 'v'), ('view_deco', None), ('viewbase', None), ('view2', None),
+       # ONE decorator object obtained from registry.add() and applied to two functions
+       ('add_deco2', 'f1', 'f2'), ('add_deco2', 'f2', 'f3')]
 
 
 def join(*parts):
@@ -106,6 +108,9 @@ def apply_model(model, prefix, op):
         m[op[2]] = op[1]          # only used on registries without prefix (see DESIGN: both readings agree there)
     elif kind == 'add_deco':
         m[join(prefix, op[2])] = op[1]
+    elif kind == 'add_deco2':
+        m[join(prefix, op[1])] = op[1]
+        m[join(prefix, op[2])] = op[2]
     elif kind in ('view', 'view_deco'):
         for name, tag in VIEW_PUBLIC.items():
             m[join(prefix, op[1], name)] = tag
@@ -138,6 +143,10 @@ def apply_real(reg, op):
             reg.view(V, prefix=op[1])
     elif kind == 'add_deco':
         reg.add(name=op[2])(FUNCS[op[1]])
+    elif kind == 'add_deco2':
+        deco = reg.add()
+        deco(FUNCS[op[1]])
+        deco(FUNCS[op[2]])
     elif kind == 'view_deco':
         (reg.view(prefix=op[1]) if op[1] is not None else reg.view())(V)
     elif kind == 'viewbase':
@@ -264,12 +273,42 @@ def probe(d, is_async, name):
     return json.loads(r[0])
 
 
+class _Formatting(__import__('logging').Handler):
+    def emit(self, record):
+        self.format(record)
+
+
+class debug_logging:
+    """the application runs with DEBUG logging switched on for the pjrpc loggers (registration and dispatch included)"""
+    def __init__(self, on):
+        self.on = on
+
+    def __enter__(self):
+        import logging
+        if self.on:
+            self.h = _Formatting()
+            self.lg = logging.getLogger('pjrpc')
+            self.old = (logging.root.manager.disable, self.lg.level)
+            logging.disable(logging.NOTSET)
+            self.lg.setLevel(logging.DEBUG)
+            self.lg.addHandler(self.h)
+
+    def __exit__(self, *a):
+        import logging
+        if self.on:
+            self.lg.removeHandler(self.h)
+            self.lg.setLevel(self.old[1])
+            logging.disable(self.old[0])
+        return False
+
+
 def run_state(case, rec):
     st = _STATES[case['index']]
     prefix, hist, model = st['prefix'], st['history'], st['model']
     obs = []
-    for disp in ('sync', 'async'):
-        for extra in (False, True):
+    for disp, extra, debug in (('sync', False, False), ('sync', True, False), ('async', False, False), ('async', True, False),
+                               ('sync', False, True), ('async', True, True)):
+        with debug_logging(debug):
             reg = build(prefix, hist)
             d = pjrpc.server.AsyncDispatcher() if disp == 'async' else pjrpc.server.Dispatcher()
             m = dict(model)
@@ -319,7 +358,7 @@ def run_state(case, rec):
 
 
 def run(ctx):
-    max_cost = ctx.pick(5, 6)
+    max_cost = ctx.pick(4, 6)
     states, transitions, viols = bfs(max_cost)
     _STATES[:] = states
     ctx.rec.transitions += transitions
@@ -343,7 +382,7 @@ def run(ctx):
 def replay(doc):
     from mc.core import Recorder, jdump
     print('history:', jdump(doc['case'])[:800])
-    states, _, viols = bfs(6 if doc.get("tier") == "thorough" else 5)
+    states, _, viols = bfs(6 if doc.get("tier") == "thorough" else 4)
     _STATES[:] = states
     rec = Recorder()
     for i, st in enumerate(states):
